@@ -117,6 +117,51 @@ CLAIMED["C15"] = dict(
     technique="Kani/CBMC bounded model checking (SAT) of the byte-level decoders on arbitrary buffer contents",
     design="4 (C15)")
 
+CLAIMED["C01"] = dict(
+    text="Bounded model checking of the compiled direction/inversion logic: Op::apply with a symbolic inverted flag and "
+         "direction calls the two kernels exactly once each and restores every bit; an inverted operator equals the "
+         "plain one with directions exchanged; handle_inversion toggles exactly when asked, refuses non-invertible "
+         "operators; addone round trip. Exact operators' round trips are decided under C11 (adapt, axisswap, "
+         "unitconvert), C07 (Helmert), C12 (stack), C03 (pipelines) and are not repeated here.",
+    note=TRUST + "M-BTREE. Marker kernels stand in for operator kernels at the dispatch level. Outside: round-trip "
+         "accuracy of every operator whose kernel calls libm (projections, cart, latitude, molodensky, ...): a "
+         "statement about compositions of transcendental functions for which CBMC has no precise model.",
+    technique="Kani/CBMC bounded model checking (SAT) of the dispatch logic with marker kernels",
+    design="4 (C01)")
+CLAIMED["C02"] = dict(
+    text="Bounded model checking of tuple independence as 2-safety obligations on the compiled kernels: dynamic "
+         "Helmert and deformation (S-GRID grids) give bit-identical results for a batch and for its singletons, "
+         "counts add; the same tuple through arrays, vectors, slices, 3D+epoch, 2D+height+epoch, 2D and 32-bit "
+         "containers yields the same stored dimensions; CoordinateSet accessors agree with get_coord/set_coord.",
+    note=TRUST + "M-BTREE, S-ACC(boolean), S-GRID, S-UF-SMALL for the libm calls of GeoCart::geographic, "
+         "rotate_and_integrate_velocity replaced by duration*v. Values in D-TINY/D-SMALL where arithmetic is "
+         "compared. Set length 2 (3 and reversed order in the thorough tier). Outside: the libm-based projections "
+         "(relational float proofs over 50-100 multiplications do not finish), geodesic, sets longer than 3.",
+    technique="Kani/CBMC bounded model checking (SAT): relational batch-vs-singleton harnesses, container differential",
+    design="4 (C02)")
+CLAIMED["C10"] = dict(
+    text="Bounded model checking of failure visibility on the compiled grid operators with arbitrary grids (S-GRID): "
+         "gridshift forward subtracts band 0 from the height (1 band) or adds bands 0,1 to x,y (2 bands), other "
+         "elements bit-identical, first-hit grid, count honest, a tuple outside all grids is all NaN unless the null "
+         "grid is given; gridshift inverse: count <= n and an uncounted tuple is NaN whatever the grids answer and "
+         "whether or not the iteration converges; deformation forward/inverse: first-hit grid, per-tuple epoch, "
+         "honest count, NaN for uncovered tuples, null grid passes unchanged.",
+    note=TRUST + "M-BTREE, S-ACC(boolean), S-GRID (a Grid impl answering arbitrarily but monotonically in the "
+         "margin), S-UF-SMALL(hypot; atan2/hypot/sqrt/powi inside geographic). Stack underflow (C12) and the pipeline "
+         "minimum rule (C03) are decided by those checks. Outside: domain limits of projections (tmerc strip, laea "
+         "disc) - their guards compare libm results.",
+    technique="Kani/CBMC bounded model checking (SAT) with nondeterministic grid stubs",
+    design="4 (C10)")
+CLAIMED["C13"] = dict(
+    text="Bounded model checking, narrow: the noop kernel (all aliases share it) returns every tuple bit-identical "
+         "in both directions and counts all of them.",
+    note=TRUST + "Everything else in C13 relates constructors that precompute constants through libm from "
+         "definition text (utm vs tmerc, lat_ts vs k_0, one- vs two-parallel lcc, x_0/y_0/lon_0 handling inside "
+         "libm-heavy kernels) and is outside what CBMC can decide here; this check therefore claims only the noop "
+         "sentence of the property.",
+    technique="Kani/CBMC bounded model checking (SAT)",
+    design="4 (C13)")
+
 NA = {
     "C05": "differential identities over compositions of libm functions on the ellipsoid: no precise libm in CBMC, no "
            "theory of sin/atanh/exp in z3/cvc5; uninterpreted functions erase what the property is about (DESIGN 4/C05)",
